@@ -4,7 +4,7 @@ import re
 from analysis import (Prov, Guards, fmt, fmt_short, walk, roots, short, comparison, find_calls, callee_matches,
                       must_pass, named_switches, const_int_of, cmp_intervals, normalised_cmp)
 from facts import AnchorError, strip_closure
-from harness import Rule
+from harness import Rule, guarded
 
 PID = "C17"
 EXPLANATION = (
@@ -243,5 +243,6 @@ def r3(ctx):
 
 
 def run(ctx):
-    a, d = r1_r4(ctx)
-    return [a, r2(ctx), r3(ctx), d]
+    G = lambda l, f, *a: guarded("C17." + l, f, ctx, *a)
+    x = G("R1-R4", r1_r4)
+    return x[:1] + G("R2", r2) + G("R3", r3) + x[1:]
